@@ -79,6 +79,7 @@ type TypeInv struct {
 	Preserving []string
 	Expr   string
 	Line   int
+	WritersOnly bool // "writers" directive: write funnel only (no modelling consequence)
 	Stable bool // "stable" directive: the fields are written only by constructors, on objects they allocate
 }
 
@@ -242,9 +243,11 @@ func processContractLines(cf *ContractFile, lines []string, lnos []int) error {
 			cf.Guards = append(cf.Guards, GuardDirective{fs[1], fs[2], fs[3]})
 			cur = nil
 			continue
-		case strings.HasPrefix(t, "stable "):
+		case strings.HasPrefix(t, "stable "), strings.HasPrefix(t, "writers "):
 			// stable Cxx Type | f1, f2 | constructor1, constructor2
-			parts := strings.SplitN(strings.TrimPrefix(t, "stable "), "|", 3)
+			// writers Cxx Type | f1, f2 | w1, w2      (write funnel: only these functions write the fields)
+			isWriters := strings.HasPrefix(t, "writers ")
+			parts := strings.SplitN(strings.TrimSpace(t[strings.Index(t, " "):]), "|", 3)
 			if len(parts) != 3 {
 				return fmt.Errorf("line %d: stable Cxx Type | fields | constructors", no)
 			}
@@ -252,7 +255,7 @@ func processContractLines(cf *ContractFile, lines []string, lnos []int) error {
 			if len(hd) != 2 {
 				return fmt.Errorf("line %d: stable needs property and type", no)
 			}
-			ti := &TypeInv{Prop: hd[0], Type: hd[1], Expr: "", Line: no, Stable: true}
+			ti := &TypeInv{Prop: hd[0], Type: hd[1], Expr: "", Line: no, Stable: !isWriters, WritersOnly: isWriters}
 			for _, f := range strings.Split(parts[1], ",") {
 				if f = strings.TrimSpace(f); f != "" {
 					ti.Fields = append(ti.Fields, f)
